@@ -238,6 +238,7 @@ def cause_class(causes):
 
 
 PROFILE = {
+    'vanish_at_accept_pct': 15,      # direct WebSocket opens whose peer is gone at the handshake
     'client_flavours': ['plain', 'plain', 'plain', 'plain', 'jsonp', 'gzip', 'jsonp+gzip'],
     'weights': {'open': 3, 'poll': 3, 'post': 5, 'probe_step': 3, 'ws_send': 4, 'ws_close': 2,
                 'ws_fail': 2, 'pong': 1, 'app_send': 2, 'app_disconnect': 4, 'advance': 4,
